@@ -18,6 +18,60 @@ CHECKS = {
     },
 }
 
+_SCHED_NOTE = ('abstract tier: FSM answers, db.targets/db.next, chronicle.append (recorder) and the worker '
+               'processes are harness-owned environment; workers reply only to tasks they were sent; '
+               'engines: 10 canonical DAG shapes (chain, fork, join, diamond, independent pair, '
+               'task->analysis(->task), regression leaf) x targets {A} and {A,B}; <= R external run '
+               'requests per history (R=2 quick, 3 thorough); snapshot/restore validated by full replays')
+CHECKS.update({
+    'C01': {
+        'level': 'model_checking', 'design_ref': 'DESIGN.md section 2 (C01)',
+        'technique': 'explicit-state exploration of the real scheduler+farm to a fixpoint, invariant at every release',
+        'text': 'State graph of the real pl.schedule / pl.farm / pl.dag code per engine, explored breadth first to a '
+        'fixpoint under the request budget; at every release (return of next_job_batch and every task message '
+        'built by farm._put) the upstream closure computed by the generator must have nothing pending or '
+        'executing for the target, where executing is the harness ground truth decoded from worker transports.',
+        'note': _SCHED_NOTE,
+    },
+    'C03': {
+        'level': 'model_checking', 'design_ref': 'DESIGN.md section 2 (C03)',
+        'technique': 'explicit-state exploration of scheduler+farm with explicit workers, conservation and exactly-once monitors',
+        'text': 'Same state graph as C01 plus an explicit-farm variant (0-2 workers registering and disconnecting in '
+        'every order). Every state: no two executions of one (algorithm,target) released and unanswered; every '
+        'released unit is in exactly one of queue / handed to one worker; every reply is recorded exactly once '
+        'and its report propagated exactly once; crew() busy list equals the units in flight.',
+        'note': _SCHED_NOTE,
+    },
+    'C04': {
+        'level': 'model_checking', 'design_ref': 'DESIGN.md section 2 (C04)',
+        'technique': 'explicit-state exploration + SCC / sink analysis of the internal-event subgraph for quiescence',
+        'text': 'Same state graph incl. run requests with an empty target list. Invariant: whenever nothing is pending '
+        'or in flight the queue, to-do, doing and crew views are empty; step: after a dispatch no unit with idle '
+        'upstream stays pending; liveness on the explored graph restricted to dispatch/reply events: no cycle '
+        '(Tarjan SCC) and every sink is quiescent.',
+        'note': _SCHED_NOTE,
+    },
+    'C05': {
+        'level': 'model_checking', 'design_ref': 'DESIGN.md section 2 (C05)',
+        'technique': 'explicit-state exploration, frame-condition oracle on every failure/invalid reply transition',
+        'text': 'Same state graph; on every failure / invalid reply transition in every reachable scheduler state the '
+        'todo/doing/do sets of all nodes are compared before and after Hand._res: the target is withdrawn from '
+        'every transitive dependent, nothing else changes, nothing grows, schedule.update/organize is not '
+        'reached, exactly one history record with the right status.',
+        'note': _SCHED_NOTE,
+    },
+    'C18': {
+        'level': 'exploration', 'design_ref': 'DESIGN.md section 3 (C18)',
+        'technique': 'bounded exhaustive enumeration of journals x windows x limits under a virtual clock against a brute-force filter',
+        'text': 'Every multiset of <=3 (thorough 4) completion instants from a 14-point boundary menu x every window '
+        '(after,before) in (menu+None)^2 x limit {None,1,2} through the real chronicle.append/find; every sequence '
+        'of <=3 appends over 18 entry kinds through the real schedule.complete with journal files re-read after '
+        'each; the same windows through fe.api.schedule.succeeded/failed.',
+        'note': 'instants are timezone-aware UTC; after+limit only checked for subset/limit/order; both readings '
+        'accepted for after+before+limit; wall clock replaced by a datetime subclass shim inside chronicle and schedule.',
+    },
+})
+
 _PENDING = 'check not built yet in this session (planned in DESIGN.md); will move to checks when it exists'
 NOT_APPLICABLE = {
     pid: _PENDING
